@@ -223,9 +223,13 @@ const (
 var rotWindows = []int64{2 * sec, 7 * sec, 20 * sec, 61 * sec, 2 * minute, 7 * minute, 10 * minute, 60 * minute, 3 * 60 * minute,
 	24 * 60 * minute, 30 * 24 * 60 * minute, 365 * 24 * 60 * minute, 10 * 365 * 24 * 60 * minute, 100 * 365 * 24 * 60 * minute}
 
+// every way a fetch can fail: issuer error, empty chain, certificate without SPIFFE ID, a good chain
+// delivered together with an error, the trust-anchor lookup failing inside the fetch
+var failKinds = []string{"err", "err", "empty", "noid", "both", "ta"}
+
 func genOutcome(r *hx.Rand, first bool) c19Out {
 	if r.Chance(1, 4) && !(first && r.Chance(3, 4)) {
-		return c19Out{Fail: []string{"err", "err", "empty", "noid"}[r.Intn(4)]}
+		return c19Out{Fail: failKinds[r.Intn(len(failKinds))]}
 	}
 	w := rotWindows[r.Intn(len(rotWindows))]
 	if r.Chance(1, 2) {
@@ -254,13 +258,30 @@ func genOutcome(r *hx.Rand, first bool) c19Out {
 func genRot(ctx *core.Ctx, r *hx.Rand) {
 	in := c19Input{Kind: "rot", UseDir: r.Chance(1, 2)}
 	in.T0 = 1_650_000_000*sec + int64(r.Intn(250_000_000))*sec + int64(r.Intn(int(sec)))
-	nscript := r.Range(1, 8)
-	for i := 0; i < nscript; i++ {
-		in.Script = append(in.Script, genOutcome(r, i == 0))
+	nops := r.Range(3, 22)
+	if r.Chance(1, 6) {
+		// failure streaks: success, 2..9 consecutive failures of mixed kinds, success, a second
+		// streak ... (a retry law that holds only for the first failure, or only for a total
+		// number of failures, shows on the later ones); every retry instant is visited
+		for len(in.Script) < 26 {
+			o := genOutcome(r, true)
+			for !o.Ok {
+				o = genOutcome(r, true)
+			}
+			in.Script = append(in.Script, o)
+			for k := r.Range(2, 9); k > 0; k-- {
+				in.Script = append(in.Script, c19Out{Fail: failKinds[r.Intn(len(failKinds))]})
+			}
+		}
+		nops = r.Range(25, 45)
+	} else {
+		nscript := r.Range(1, 8)
+		for i := 0; i < nscript; i++ {
+			in.Script = append(in.Script, genOutcome(r, i == 0))
+		}
 	}
 	sim := &rotSim{now: in.T0, script: in.Script}
 	sim.start()
-	nops := r.Range(3, 22)
 	cancelled := false
 	for i := 0; i < nops; i++ {
 		x := r.Intn(20)
@@ -342,7 +363,7 @@ func genConc(ctx *core.Ctx, r *hx.Rand) {
 		w := rotWindows[r.Intn(9)] // 2 s .. 3 h
 		switch x := r.Intn(20); {
 		case i > 0 && failEvery > 0 && r.Intn(failEvery) == 0:
-			o = c19Out{Fail: []string{"err", "empty", "noid"}[r.Intn(3)]}
+			o = c19Out{Fail: failKinds[r.Intn(len(failKinds))]}
 		case x < 16 || i == 0 && x < 19:
 			dnb := -(w/2 + int64(r.Intn(int(w/2+1)))) // already past half-life: renew at once
 			o = c19Out{Ok: true, Dnb: dnb, Dna: dnb + w}
